@@ -121,7 +121,7 @@ A `Keyvalues` object has a field `vf` (`_value`) holding an atom (leaf) or a ref
 object whose fields `0,1,2,…` reference the children. -/
 
 /-- Location of the children list of block `a`. -/
-def kidsLoc (vf : Nat) (h : Store) (a : Loc) : Option Loc :=
+def kidsLoc (vf : Nat) (h : Store) (a : Nat) : Option Nat :=
   match h[a]? with
   | none => none
   | some o =>
@@ -129,18 +129,18 @@ def kidsLoc (vf : Nat) (h : Store) (a : Loc) : Option Loc :=
     | some (.ref r) => some r
     | _ => none
 
-def listElems (h : Store) (r : Loc) : List Slot :=
+def listElems (h : Store) (r : Nat) : List Slot :=
   match h[r]? with
   | some o => o.fields.map fun p => p.2
   | none => []
 
 /-- `list.append`: write at index = current number of elements. -/
-def pushBack (h : Store) (r : Loc) (s : Slot) : Store :=
+def pushBack (h : Store) (r : Nat) (s : Slot) : Store :=
   step h (.write r (listElems h r).length s)
 
 /-- `for kv in elems: target.append(kv.copy())` (or `target.append(kv)` when `cp = false`). -/
 def appendCopies (tr : Nat → Nat → Treat) (n : Nat) (cp : Bool) :
-    Store → Loc → List Slot → Option Store
+    Store → Nat → List Slot → Option Store
   | h, _, [] => some h
   | _, _, .val _ :: _ => none                       -- TypeError: not a Keyvalue
   | h, t, .ref k :: rest =>
@@ -158,8 +158,8 @@ inductive AddTarget where
 /-- `a + b` for a block `a`; `bl` is the list object whose elements are iterated (the children list of a
 root/block `b`, or a plain list) — as a snapshot, see the notes: the implementation iterates the live
 list. Returns the new store and the result. -/
-def kvAdd (tgt : AddTarget) (tr : Nat → Nat → Treat) (n vf : Nat) (h : Store) (a bl : Loc) :
-    Option (Store × Loc) :=
+def kvAdd (tgt : AddTarget) (tr : Nat → Nat → Treat) (n vf : Nat) (h : Store) (a bl : Nat) :
+    Option (Store × Nat) :=
   match copyWith tr n h a with
   | none => none
   | some (h1, c) =>
@@ -171,13 +171,13 @@ def kvAdd (tgt : AddTarget) (tr : Nat → Nat → Treat) (n vf : Nat) (h : Store
     | none => none
 
 /-- `a += b` / `a.extend(b)`: the elements of `bl` are copied (when `cp`) and appended to `a`. -/
-def kvIAdd (cp : Bool) (tr : Nat → Nat → Treat) (n vf : Nat) (h : Store) (a bl : Loc) : Option Store :=
+def kvIAdd (cp : Bool) (tr : Nat → Nat → Treat) (n vf : Nat) (h : Store) (a bl : Nat) : Option Store :=
   match kidsLoc vf h a with
   | some t => appendCopies tr n cp h t (listElems h bl)
   | none => none
 
 /-- Abstract children of block `a`. -/
-def kidsAbs (m vf : Nat) (h : Store) (a : Loc) : List Tree :=
+def kidsAbs (m vf : Nat) (h : Store) (a : Nat) : List Tree :=
   match kidsLoc vf h a with
   | none => []
   | some r => (listElems h r).map (absSlot (abs m h))
